@@ -741,8 +741,27 @@ func (w *_assemblerRepr) asKinded(stg schema.UnionRepresentation_Kinded, kind da
 }
 
 func (w *_assemblerRepr) BeginMap(sizeHint int64) (datamodel.MapAssembler, error) {
-	if stg, ok := reprStrategy(w.schemaType).(schema.UnionRepresentation_Kinded); ok {
+	switch stg := reprStrategy(w.schemaType).(type) {
+	case schema.UnionRepresentation_Kinded:
 		return w.asKinded(stg, datamodel.Kind_Map).BeginMap(sizeHint)
+	case schema.StructRepresentation_Tuple, schema.StructRepresentation_ListPairs:
+		// The representation is a list: a map is a wrong kind here, and is refused by this call
+		// (the type-level assembler below would begin the struct as the map it is at type level).
+		return nil, datamodel.ErrWrongKind{
+			TypeName:        w.schemaType.Name() + ".Repr",
+			MethodName:      "BeginMap",
+			AppropriateKind: datamodel.KindSet_JustMap,
+			ActualKind:      datamodel.Kind_List,
+		}
+	case schema.StructRepresentation_Stringjoin, schema.StructRepresentation_StringPairs,
+		schema.UnionRepresentation_Stringprefix:
+		// The representation is a string.
+		return nil, datamodel.ErrWrongKind{
+			TypeName:        w.schemaType.Name() + ".Repr",
+			MethodName:      "BeginMap",
+			AppropriateKind: datamodel.KindSet_JustMap,
+			ActualKind:      datamodel.Kind_String,
+		}
 	}
 	asm, err := (*_assembler)(w).BeginMap(sizeHint)
 	if err != nil {
